@@ -1,8 +1,8 @@
 #!/verif/.venv/bin/python
 # Replay of a solver counterexample against the unmodified code (no shims).
-# property=C03 kernel=estimate label=c03:estimate_equals_inserted_delay
+# property=C03 kernel=step label=c03:start_exact
 import sys
 sys.path[:0] = ["/repo/pulser-core", "/repo/pulser-simulation", "/verif"]
 from symx.replay import replay
-sys.exit(replay(check='checks.c03', kernel='estimate', shape={'program': 'phase_ref_from_post_shift', 'protocol': 'wait-for-all'},
-                assignment={'ph0': 0, 'post0': 1, 'd0/k': 2, 'dn/k': 2, 'phn': 359, 'buf#1.start': 0, 'buf#1.end': 0, 'buf#2.start': 0, 'buf#2.end': 1}, label='c03:estimate_equals_inserted_delay'))
+sys.exit(replay(check='checks.c03', kernel='step', shape={'own': {'clock': 1, 'local': False, 'slots': ['pulseA'], 'mod': True, 'pj': 'custom', 'targets_a': ['q0'], 'targets_b': ['q1']}, 'op': ['add_pulse', 'min-delay', 'B'], 'maxseq': True, 'nbarriers': 1},
+                assignment={'max_sequence_duration': 12, 'own.min_duration': 4, 'own.tr': 1, 'own.pjt': 4, 'own.s0.dur': 4, 'new.dur': 4, 'barrier0': 6, 'buf#1.start': 0, 'buf#1.end': 0, 'buf#2.start': 0, 'buf#2.end': 0, 'buf#3.start': 0, 'buf#3.end': 0, 'buf#4.start': 0, 'buf#4.end': 0}, label='c03:start_exact'))
